@@ -327,6 +327,23 @@ impl<'a> Tr<'a> {
             }
         }
         // `let p = s.as_ptr();` / `s.as_mut_ptr()`: remember what p points into
+        // `let p = s.as_ptr() as *const [T; N];`
+        if let (Pat::Ident(pi), Expr::Cast(cast)) = (pat, peel(&init.expr)) {
+            if let syn::Type::Ptr(tp) = &*cast.ty {
+                if let syn::Type::Array(arr) = &*tp.elem {
+                    if let Some((s, off)) = self.ptr_pattern(&cast.expr)? {
+                        if s.pre.is_empty() && !s.diverges && off.is_none() {
+                            let n = self.expr(&arr.len, Some(&Ty::Int(IntTy::USIZE)))?;
+                            if n.pre.is_empty() {
+                                self.ptr_alias.insert(pi.ident.to_string(), (s.term, s.ty, None));
+                                self.ptr_array_len.insert(pi.ident.to_string(), n.term);
+                                return Ok(false);
+                            }
+                        }
+                    }
+                }
+            }
+        }
         if let (Pat::Ident(pi), Expr::MethodCall(m)) = (pat, peel(&init.expr)) {
             let mn = m.method.to_string();
             if matches!(mn.as_str(), "as_ptr" | "as_mut_ptr" | "add" | "offset" | "cast") {
